@@ -102,8 +102,15 @@ def run(tier="quick", only_key=None):
                 except RepoRaise as e:
                     (ck.ok if e.exc_name == "ValueError" else (lambda *a: ck.fail(*a, loc(fn("ifft")), f"raises {e.exc_name}")))("transform-pair", f"exponax._spectral.ifft#1d-needs-num_points,{tag}")
             else:
-                back2 = it.call(fn("ifft"), [uh])
-                ck.compare("transform-pair", f"exponax._spectral.ifft#infer,{tag}", loc(fn("ifft")), back2, back)
+                try:
+                    back2 = it.call(fn("ifft"), [uh])
+                except ShapeError as e:
+                    ck.fail("transform-pair", f"exponax._spectral.ifft#infer,{tag}", loc(fn("ifft")), f"ifft with inferred num_spatial_dims/num_points does not undo fft: {e}")
+                else:
+                    if back2.shape != back.shape:
+                        ck.fail("transform-pair", f"exponax._spectral.ifft#infer,{tag}", loc(fn("ifft")), f"ifft with inferred num_points returns shape {tuple(str(d) for d in back2.shape)} instead of {tuple(str(d) for d in back.shape)}")
+                    else:
+                        ck.compare("transform-pair", f"exponax._spectral.ifft#infer,{tag}", loc(fn("ifft")), back2, back)
             # ---- (b) layout
             wn = it.call(fn("build_wavenumbers"), [D, N])
             ck.compare("layout", f"exponax._spectral.build_wavenumbers#{tag}", loc(fn("build_wavenumbers")), wn, Tens((D,) + fshape, C.kvec(D)))
